@@ -787,6 +787,18 @@ func (s *sink) resetAll() {
 	}
 }
 
+func (s *sink) connCount() int {
+	s.mu.Lock()
+	defer s.mu.Unlock()
+	return s.nconn
+}
+
+func (s *sink) frameCount() int {
+	s.mu.Lock()
+	defer s.mu.Unlock()
+	return len(s.frames)
+}
+
 func (s *sink) snapshot() []frameRec {
 	s.mu.Lock()
 	defer s.mu.Unlock()
@@ -805,9 +817,16 @@ func runL2(seed uint64, idx int, o *out, tier string) {
 	r := caseRng(seed, idx)
 	c := balancer.VerifGetConsts()
 	thr := c.BufferLen * 20 / 100
-	scen := r.Pick(5, 3, 3, 1) // 0 idle tail, 1 upstream down then up (buffers fill, drops), 2 connection resets, 3 NewEgress as is
+	// 0 idle tail, 1 upstream down then up (buffers fill, drops), 2 connection resets under traffic, 3 NewEgress as is,
+	// 4 upstream resets the idle connection, then a multi-packet batch arrives (write fails on the FIRST packet of the batch),
+	// 5 upstream stops reading until the write deadline fires inside a batch of large packets (write fails in the MIDDLE).
+	// The scenario rotates with the live-trial index so that every run of >= 128 cases covers all of them several times.
+	scen := []int{0, 4, 1, 5, 2, 4, 0, 3, 4, 1, 5, 2, 0, 4, 5, 1}[(idx/8)%16]
 	o.Stat(fmt.Sprintf("l2.scenario.%d", scen), 1)
 	cfg := balancer.EgressConfig{HostTag: hostTag, ReconnectDelay: 50 * time.Millisecond, DialTimeout: 5 * time.Second}
+	if scen == 5 {
+		cfg.WriteTimeout = 3 * time.Second // sendLoop keeps the deadline between 1 s and 3 s ahead (writeTimeoutAccuracy = 2 s)
+	}
 	var e *balancer.Egress
 	var sinks [2]*sink
 	var key string
@@ -887,6 +906,53 @@ func runL2(seed uint64, idx int, o *out, tier string) {
 			burst(k2)
 		}
 		lastPartial = true
+	case 4:
+		// both senders connect, optionally forward a first burst, then go idle; the upstream resets the idle connections
+		// (RST: nothing is in flight, the next write fails before a single byte is accepted)
+		waitConn := time.Now().Add(timerBudget)
+		for (sinks[0].connCount() < 1 || sinks[1].connCount() < 1) && time.Now().Before(waitConn) {
+			time.Sleep(5 * time.Millisecond)
+		}
+		k0 := []int{0, r.Range(1, 5), r.Range(thr, thr+10)}[r.Pick(2, 2, 1)]
+		burst(k0)
+		waitWarm := time.Now().Add(timerBudget)
+		for sinks[0].frameCount()+sinks[1].frameCount() < k0 && time.Now().Before(waitWarm) {
+			time.Sleep(10 * time.Millisecond)
+		}
+		for _, s := range sinks {
+			s.resetAll()
+		}
+		time.Sleep(300 * time.Millisecond)
+		k := []int{r.Range(3, 12), r.Range(13, thr-1), r.Range(thr, 3*thr)}[r.Pick(3, 2, 2)]
+		desc = append(desc, fmt.Sprintf("warmup=%d idle-connection-reset burst=%d", k0, k))
+		burst(k)
+		if r.Bool() {
+			k2 := r.Range(1, thr-1)
+			time.Sleep(time.Duration(r.Range(200, 1500)) * time.Millisecond)
+			desc = append(desc, fmt.Sprintf("tail=%d", k2))
+			burst(k2)
+		}
+	case 5:
+		// the upstream stops reading; large packets fill the kernel buffers, the sender blocks inside a batch until its
+		// write deadline fires (partial write). Nothing is reset: everything the kernel accepted is read by the sink later,
+		// so the accounting is exact.
+		for _, s := range sinks {
+			s.setStalled(true)
+		}
+		k := r.Range(c.BufferLen*3/4, c.BufferLen-2) // fits the primary buffer: no failover, no drops
+		size := r.Range(50000, 60000)              // 7.5 … 12 MB: more than the kernel buffers of a loopback connection hold
+		desc = append(desc, fmt.Sprintf("upstream-stalled burst=%d x %d bytes until write deadline", k, size))
+		for j := 0; j < k; j++ {
+			push(size + r.Range(0, 500))
+		}
+		// the sender gives up the first connection at its write deadline and reconnects: then the upstream reads again
+		waitRe := time.Now().Add(timerBudget + 3*time.Second)
+		for sinks[0].connCount() < 2 && time.Now().Before(waitRe) {
+			time.Sleep(10 * time.Millisecond)
+		}
+		for _, s := range sinks {
+			s.setStalled(false)
+		}
 	case 2:
 		k := r.Range(thr, 3*thr)
 		desc = append(desc, fmt.Sprintf("burst=%d reset", k))
@@ -1019,6 +1085,55 @@ func runL2(seed uint64, idx int, o *out, tier string) {
 			o.NT("e2e-idle-after-partial-batch")
 		}
 		_ = maxLat
+	case 4, 5:
+		// exact accounting: nothing was in flight when the write failed (4) / everything the kernel accepted is read (5), so
+		// every accepted packet is received exactly once, in acceptance order, or is the one packet given up by a counted
+		// write error ("not resend for last")
+		lastPush := pushes[len(pushes)-1].at
+		deadline := lastPush.Add(timerBudget + 5*time.Second)
+		var data map[uint32]frameRec
+		var st balancer.EgressStats
+		quietSince := time.Now()
+		lastFrames := -1
+		for {
+			var bad bool
+			data, _, bad = received()
+			st = balancer.VerifStatsPeek(e)
+			b0, b1 := balancer.VerifBuf(e, 0), balancer.VerifBuf(e, 1)
+			drained := b0.Wi == 0 && b1.Wi == 0 && b0.Ri >= b0.Rm && b1.Ri >= b1.Rm
+			nf := sinks[0].frameCount() + sinks[1].frameCount()
+			if nf != lastFrames {
+				lastFrames, quietSince = nf, time.Now()
+			}
+			if bad || time.Now().After(deadline) {
+				break
+			}
+			if drained && uint64(len(data))+st.WriteErrors >= st.ForwardedPackets && time.Since(quietSince) > 400*time.Millisecond {
+				break
+			}
+			time.Sleep(20 * time.Millisecond)
+		}
+		o.Stat("l2.delivered", int64(len(data)))
+		o.Stat(fmt.Sprintf("l2.scen%d.write-errors", scen), int64(st.WriteErrors))
+		lost := int64(st.ForwardedPackets) - int64(len(data))
+		if st.ForwardedPackets+st.DroppedPackets != uint64(len(pushes)) || st.DroppedPackets != 0 {
+			o.Viol("e2e-uncounted", "%d packets handed in, forwarded=%d dropped=%d (the buffers never filled)", len(pushes), st.ForwardedPackets, st.DroppedPackets)
+		} else if scen == 4 && st.WriteErrors == 0 && lost > 0 {
+			// the kernel accepted a write on the reset connection (not observed on Linux loopback): TCP loss, outside the property
+			o.Stat("l2.scen4.tcp-silent-loss", 1)
+		} else if lost > int64(st.WriteErrors) {
+			var miss []string
+			for _, p := range pushes {
+				if _, ok := data[p.seq]; !ok && len(miss) < 12 {
+					miss = append(miss, fmt.Sprint(p.seq))
+				}
+			}
+			o.Viol("e2e-lost", "%d accepted packets never reached the upstream (first missing seq: %s) but only %d write errors were counted, each of which gives up one packet; buffers were never full, nothing was in flight on a dead connection (scenario %d: %s)",
+				lost, strings.Join(miss, ","), st.WriteErrors, scen, strings.Join(desc, " ; "))
+		}
+		if st.WriteErrors > 0 {
+			o.NT(fmt.Sprintf("e2e-write-error-inside-batch-scen%d", scen))
+		}
 	case 2:
 		// after the resets: exactness/order of whatever arrived, and the sender recovers: a later packet gets through
 		deadline := time.Now().Add(timerBudget + 2*time.Second)
